@@ -7,6 +7,7 @@ import (
 	"verif/chk"
 	"verif/hx"
 	"verif/ref"
+	"verif/simmaster"
 )
 
 func init() {
@@ -19,6 +20,7 @@ func getenv(k string) string { return os.Getenv(k) }
 //
 //	"mid31": the events of each file straddle 2^31
 //	"hi32":  the last event of each file ends exactly at 2^32-1
+//	"wrap32": the events of each file straddle 2^32
 func placeBases(in *HistInput, mode string) bool {
 	if mode == "" {
 		return true
@@ -46,6 +48,10 @@ func placeBases(in *HistInput, mode string) bool {
 			bases[i] = 1<<31 - size/2
 		case "hi32":
 			bases[i] = 1<<32 - 1 - size
+		case "wrap32":
+			// the file has grown beyond 4 GiB: the events straddle 2^32, the header
+			// fields of the later ones hold the low 32 bits of their offsets
+			bases[i] = 1<<32 - size/2
 		}
 	}
 	in.Bases = bases
@@ -74,7 +80,7 @@ func checkResume(in HistInput) string {
 	if stop != nil {
 		return "generator error: " + stop.Why
 	}
-	base := Run(h, Opts{Start: start, ServerID: 9, LockStep: in.LockStep, KeepTx: true})
+	base := Run(h, Opts{Start: start, ServerID: 9, LockStep: in.LockStep, KeepTx: !in.Wipe, Wipe: in.Wipe})
 	if base.Hung {
 		return "HUNG"
 	}
@@ -112,8 +118,13 @@ func checkResume(in HistInput) string {
 	}
 	// (iii) every delivered transaction as a resume point
 	for k := range got {
+		if k < len(exp) && exp[k].CommitIndex < len(served) && served[exp[k].CommitIndex].End >= 1<<32 {
+			// a dump request carries 32 bits of offset: no dump can start beyond
+			// 4 GiB, the label is checked above and is not a resume point
+			continue
+		}
 		rp := ref.Position{File: got[k].NextFile, Pos: uint64(got[k].NextPos)}
-		res := Run(h, Opts{Start: rp, ServerID: 9, LockStep: in.LockStep})
+		res := Run(h, Opts{Start: rp, ServerID: 9, LockStep: in.LockStep, Wipe: in.Wipe})
 		if res.Hung {
 			return "HUNG"
 		}
@@ -147,6 +158,73 @@ func checkResume(in HistInput) string {
 	return ""
 }
 
+// checkReposition: the whole history is streamed, then the caller moves the SAME
+// Streamer back to the label of delivery k with SetBinlogPosition and streams
+// again: the dump request is that label and the suffix is delivered again.
+func checkReposition(in HistInput) string {
+	h := in.build()
+	start := ref.Position{File: h.Files[0].Name, Pos: 4}
+	served, err := h.Serve(start.File, start.Pos)
+	if err != nil {
+		return "generator error: " + err.Error()
+	}
+	exp, stop := ref.Expect(served, start)
+	if stop != nil {
+		return "generator error: " + stop.Why
+	}
+	k := in.RepositionAt - 1
+	if k >= len(exp) {
+		return ""
+	}
+	rp := start
+	if k >= 0 {
+		rp = exp[k].Next
+	}
+	first := exp
+	var plans []simmaster.Plan
+	if in.CutAt > 0 {
+		// the first attempt loses its connection in front of packet CutAt-1 (possibly
+		// between a BEGIN and its commit); then the caller re-points the Streamer
+		cut := in.CutAt - 1
+		if cut >= len(served) {
+			return ""
+		}
+		first = nil
+		for _, e := range exp {
+			if e.CommitIndex < cut {
+				first = append(first, e)
+			}
+		}
+		plans = []simmaster.Plan{{At: cut, Kind: "fin", Final: "eof"}, {At: -1, Final: "eof"}}
+	}
+	out := Run(h, Opts{Start: start, ServerID: 9, LockStep: in.LockStep, Attempts: 2, Wipe: in.Wipe, Plans: plans, Reposition: map[int]ref.Position{1: rp}})
+	if out.Hung {
+		return "HUNG"
+	}
+	for a, p := range out.StreamPanic {
+		if p != "" {
+			return fmt.Sprintf("panic in Stream (attempt %d): %s", a, p)
+		}
+	}
+	for a, e := range out.StreamErr {
+		if e != nil && !(a == 0 && in.CutAt > 0) {
+			return fmt.Sprintf("attempt %d failed on a well-formed binlog: %s", a, clip(e.Error(), 200))
+		}
+	}
+	d := out.DumpOf(1)
+	if d == nil {
+		return "the second attempt issued no dump request"
+	}
+	if d.File != rp.File || uint64(d.Pos) != rp.Pos {
+		return fmt.Sprintf("SetBinlogPosition(%s) between two Stream calls of one Streamer: the second dump request asks for %s:%d", rp, d.File, d.Pos)
+	}
+	want := append(append([]ref.ExpTx{}, first...), exp[k+1:]...)
+	if diff := hx.CompareAll(want, out.Snaps()); diff != "" {
+		return fmt.Sprintf("after SetBinlogPosition(%s) between two Stream calls (first call: %d transactions; then everything behind the new position): %s", rp, len(first), diff)
+	}
+	return ""
+}
+
 func runC03(r *chk.Run) {
 	depth := 4
 	if r.Thorough() {
@@ -165,7 +243,12 @@ func runC03(r *chk.Run) {
 	nameSets := [][]string{nil, {"a", "b", "c", "d"}, {"binlog with space.1", "\xe4\xba\x8c\xe8\xbf\x9b\xe5\x88\xb6.000002", string(long), "x.4"}}
 	resumePoints := 0
 	hr := newHistRunner(r, "C03", func(in HistInput) (string, int, int) {
-		why := checkResume(in)
+		why := ""
+		if in.RepositionAt > 0 {
+			why = checkReposition(in)
+		} else {
+			why = checkResume(in)
+		}
 		h := in.build()
 		served, _ := h.Serve(h.Files[0].Name, 4)
 		exp, _ := ref.Expect(served, ref.Position{File: h.Files[0].Name, Pos: 4})
@@ -183,8 +266,11 @@ func runC03(r *chk.Run) {
 			return
 		}
 		units := append([]string{}, seq...)
-		for mi, mode := range []string{"", "mid31", "hi32"} {
+		for mi, mode := range []string{"", "mid31", "hi32", "wrap32"} {
 			for ci, cfg := range []ref.Cfg{cfgA, cfgB} {
+				if mode == "wrap32" && (len(seq) > 3 || len(seq) == 0) {
+					continue
+				}
 				if len(seq) > 3 && mode != "" && ci == 1 {
 					continue // old-format configuration with shifted offsets only up to depth 3
 				}
@@ -197,7 +283,7 @@ func runC03(r *chk.Run) {
 				if count%997 == 0 {
 					r.Sample(mode, map[string]interface{}{"units": units, "cfg": CfgName(cfg), "offset_mode": mode, "bases": in.Bases, "names": in.Names})
 				}
-				if len(seq) <= 3 && len(seq) > 0 && ci == 0 {
+				if len(seq) <= 3 && len(seq) > 0 && ci == 0 && mode != "wrap32" {
 					for k := 1; k <= len(seq); k++ {
 						in2 := in
 						in2.RejectAt = k
@@ -215,7 +301,7 @@ func runC03(r *chk.Run) {
 						return
 					}
 				}
-				if len(seq) <= 2 && len(seq) > 0 && ci == 0 {
+				if len(seq) <= 2 && len(seq) > 0 && ci == 0 && mode != "wrap32" {
 					// the connection is lost in front of every packet of the dump in turn
 					for k := 2; k <= 14; k++ {
 						in2 := in
@@ -244,12 +330,32 @@ func runC03(r *chk.Run) {
 			hr.add(in)
 		}
 	}
+	// the caller moves the Streamer between two Stream calls
+	for _, cfg := range []ref.Cfg{cfgA, cfgB} {
+		for _, units := range [][]string{{UTxXID, URotate, UTxCommit, UTxXID}, {UDDL, UTx2, UAutoRows}, {UTxXID, UTxRollback, URotate, URotate, UTxXID}} {
+			for k := 0; k <= 4; k++ {
+				hr.add(HistInput{Units: units, Cfg: cfg, LockStep: k%2 == 0, Oracle: "resume", RepositionAt: k + 1})
+			}
+		}
+	}
+	// the first call loses its connection (also between a BEGIN and its commit),
+	// then the caller re-points the Streamer to any boundary
+	for _, cfg := range []ref.Cfg{cfgA, cfgB} {
+		units := []string{UTxXID, UDDL, UAutoRows, UTxCommit, UDDL, UStmtOut}
+		for cut := 3; cut <= 16; cut++ {
+			for k := 0; k <= 6; k++ {
+				hr.add(HistInput{Units: units, Cfg: cfg, LockStep: true, Oracle: "resume", RepositionAt: k + 1, CutAt: cut + 1})
+			}
+		}
+	}
 	hr.finish()
+	RunChecksumChange(r)
+	RunNested(r)
 	_ = resumePoints
 	r.Set("alphabet", alpha)
 	r.Set("depth", depth)
 	r.Set("histories", count)
-	r.Set("offset_modes", []string{"contiguous from 4", "events straddle 2^31", "last event ends at 2^32-1"})
+	r.Set("offset_modes", []string{"contiguous from 4", "events straddle 2^31", "last event ends at 2^32-1", "events straddle 2^32 (file beyond 4 GiB; labels are the 32-bit header fields, resume points only below 4 GiB)"})
 	r.Rule("all unit sequences of length 0..depth over {txX, ddl, rotate, txC, autocommitted rows, rolled-back tx, 2-table tx} with at most 2 rotations (3 files) x 3 offset placements x 2 wire configurations x 3 file-name sets; for each history: deliveries vs reference labels, chain invariant on the delivered labels, and for EVERY delivered transaction a second streamer started at its NextPosition (dump request checked by the simulated master) must deliver exactly the original suffix; states counts histories, transitions counts events fed including resumed runs")
 	r.Assume("offsets are header fields and master addressing: a file whose events sit near 2^31 / 2^32 is simulated by a gap after the header events (no 4 GB file is materialised)")
 	r.SetExhaustive(true)
